@@ -15,7 +15,9 @@ theorem pyTables_ok : Flatland.Generated.C04.pyTables.OK := by decide
 
 /-! ### one coherent outcome (all kinds, including the opaque Float / Decimal) -/
 
-/-- **set_coherent** — whenever `set(x)` completes, flag, value, u and the signal agree:
+/-- **set_coherent** — (holds by construction of the model: `setScalar` is written branch by branch
+    like `Scalar.set`, and the proof is a case split; that the code refines it is the correspondence)
+    whenever `set(x)` completes, flag, value, u and the signal agree:
     `set_flag`, `set_success`, `set_failure` and the scalar half of `signals` in one statement. -/
 theorem set_coherent (E : Env) (k : Kind) (x : Native) (r : SetResult)
     (h : setScalar E k x = .ok r) : Outcome E k x r := by
@@ -311,6 +313,21 @@ theorem C04_reset_value_fails : ¬ C04_Full_reset_value := by
   subst h1
   simp at h2
 
+/-- the value clause read literally, None included -/
+def C04_Full_reset_value_none : Prop :=
+  ∀ (k : Kind) (x : Native) (r : SetResult), Modelled k = true → Coherent k = true → CoherentNone k = true →
+    Native.WF x = true → setScalar plainEnv k x = .ok r → r.flag = true →
+    ∃ r', setScalar plainEnv k (.str r.st.u) = .ok r' ∧ r'.st.value = r.st.value
+
+/-- KF-C04-d: `String().set(None)` has value None and text `''`; `String().set('')` has value `''` -/
+theorem C04_reset_none_fails : ¬ C04_Full_reset_value_none := by
+  intro h
+  obtain ⟨r', h1, h2⟩ := h (.string true) .none ⟨⟨.none, .none, []⟩, true, [true]⟩ rfl rfl rfl rfl
+    (by simp [setScalar, adapt, uOfValue]) rfl
+  simp [setScalar, adapt, uOfValue, serialize, strip_nil] at h1
+  subst h1
+  simp at h2
+
 example : Coherent Flatland.Generated.C04.booleanDefault = true := by decide
 example : CoherentNone Flatland.Generated.C04.booleanDefault = true := by decide
 
@@ -344,7 +361,7 @@ theorem mergeCalls_ne (runs : List (Nat × ChildRun)) (n : Nat) :
   obtain ⟨call, _, rfl⟩ := hr
   exact prefixSigs_ne i _ s hs
 
-/-- **signals** — a completed `set()` of any element kind logs exactly one entry for that element,
+/-- **signals** — (by construction of the model, as `set_coherent`) a completed `set()` of any element kind logs exactly one entry for that element,
     as the last entry, with `adapted` equal to the returned flag; the entries before it belong to
     elements below it. -/
 theorem signals_spec (E : Env) (S : Schema) (old : Elem) (x : Input) (out : SetOut)
